@@ -510,3 +510,66 @@ pub fn replay(args: &Args, property: &str, path: &std::path::Path) -> Report {
     }
     rep
 }
+
+/// C15 end to end: how the line loop groups lines into directives (`iterate_directive` on top of `detect_from` /
+/// `add_line`): every (directive line, candidate continuation line, third line) combination over small alphabets
+/// of white space, prefixes and directive-shaped remainders, run through `Txtpp::run` and compared with the model.
+pub fn run_c15e(args: &Args) -> Report {
+    let mut rep = Report::new("C15", "M5-grouping", &args.replay_dir);
+    let model = Model::new(&args.model, &args.work);
+    rep.rule = "exhaustive: directive line = {ws}{prefix}TXTPP#{temp t.tmp | write w | (empty) | run echo one} x ws in {\"\", two blanks} x prefix in {//, // , -, e-acute blank, (none for the single-line forms)}; second line = same ws + {prefix, prefix-many blanks, prefix without its trailing blank, prefix without trailing blank + TAB, other prefix, nothing} + {TXTPP#run echo two, TXTPP#temp u.tmp, TXTPP#, TXTPP#tag T, x, (empty)}; third line in {plain, continuation-looking, none}; one source each, Txtpp::run (build) vs the Lean model: verdict, output bytes, temp files. distinct_nontrivial = cases whose second line is directive-shaped.".to_string();
+    let mut runner = Runner::new(args, "c15e");
+    let cmds: Vec<(String, Vec<Act>)> = vec![
+        ("echo one".into(), vec![Act { kind: "lit", arg: "one\n".into() }]),
+        ("echo two".into(), vec![Act { kind: "lit", arg: "two\n".into() }]),
+    ];
+    let heads = ["TXTPP#temp t.tmp", "TXTPP#write w", "TXTPP#", "TXTPP#run echo one"];
+    let rests = ["TXTPP#run echo two", "TXTPP#temp u.tmp", "TXTPP#", "TXTPP#tag T", "x", ""];
+    let mut n = 0usize;
+    let mut nontrivial = 0u64;
+    for ws in ["", "  "] {
+        for pre in ["//", "// ", "-", "é "] {
+            for head in heads {
+                let l1 = format!("{ws}{pre}{head}");
+                let lead: Vec<String> = vec![
+                    format!("{ws}{pre}"),
+                    format!("{ws}{}", " ".repeat(pre.len())),
+                    format!("{ws}{}", pre.trim_end()),
+                    format!("{ws}{}\t", pre.trim_end()),
+                    format!("{ws}#"),
+                    ws.to_string(),
+                ];
+                for ld in &lead {
+                    for rest in rests {
+                        for third in ["", "plain", "cont"] {
+                            n += 1;
+                            if n % args.shards.max(1) != args.shard {
+                                continue;
+                            }
+                            let l2 = format!("{ld}{rest}");
+                            let mut text = format!("{l1}\n{l2}\n");
+                            match third {
+                                "plain" => text.push_str("plain end\n"),
+                                "cont" => text.push_str(&format!("{ws}{pre}more\n")),
+                                _ => {}
+                            }
+                            let p = Project { files: vec![("a.txt.txtpp".into(), text.clone().into_bytes())], dirs: vec![], cmds: cmds.clone(), sources: vec!["a.txt.txtpp".into()], sig: vec![], expect_error: false };
+                            materialize(&p, &runner.dir);
+                            let mut cfg = RunCfg::build_all();
+                            cfg.threads = 1;
+                            runner.run_here(&cfg, &p.cmds, vec![format!("{head}|{}|{rest}|{third}", if ws.is_empty() { "nows" } else { "ws" })], &format!("source {:?}", text));
+                            if rest.starts_with("TXTPP#") {
+                                nontrivial += 1;
+                            }
+                        }
+                    }
+                }
+            }
+        }
+    }
+    compare_all(&mut rep, &runner, &model, "C15", "C15.continuation_iff_grammar, detect_iff_grammar (grouping of lines by the line loop)");
+    rep.distinct = Some(nontrivial);
+    runner.cleanup();
+    rep
+}
+
